@@ -1,7 +1,7 @@
 (* C09 — pinned property theorems about the keep-alive part of the shared TransportService model
    (coq/Ts), in logical time. This file contains statements, `exact`, and Print Assumptions only. *)
 From Coq Require Import List NArith Bool.
-From V.Ts Require Import Model Proofs Rearm Timing Extra Exact Multi MultiProofs.
+From V.Ts Require Import Model Proofs Rearm Timing Extra Exact Names Multi MultiProofs.
 Import ListNotations.
 Open Scope N_scope.
 
@@ -285,6 +285,45 @@ Example C09_multi_nonvacuous :
   mrun m0 tr = [([[OEst 0]; [OEst 0]], NNo); ([[ODown 0 1]; []], NPending); ([[]; [ODown 0 1]], NEnd)] /\
   mstrong (m_svcs (mfinal m0 (firstn 2 tr))) 1 = 1 /\ mstrong (m_svcs (mfinal m0 tr)) 1 = 0.
 Proof. vm_compute. repeat split; reflexivity. Qed.
+
+(* ---- which substreams hold the connection: the name tables of ProtocolSet::new (Names.v) ----
+   The connection decides whether an ACCEPTED INBOUND substream stores a lifetime permit by looking
+   the negotiated name up in `keep_alives`. For every table of installed protocols with pairwise
+   distinct names: every negotiable name — the main name and EVERY fallback name of a protocol —
+   is classified with the keep-alive flag of the protocol it belongs to; a fallback name is
+   reported to the protocol under its main name (so the TransportService counts it as activity);
+   names outside the table are not offered. *)
+Theorem C09_name_table_main :
+  forall tbl pr,
+  NoDup (all_names tbl) -> In pr tbl ->
+  classify tbl (p_main pr) = Some (p_ka pr) /\ resolve tbl (p_main pr) = (p_main pr, None).
+Proof. intros tbl pr ND HIn. split; [apply classify_main | apply resolve_main]; assumption. Qed.
+Print Assumptions C09_name_table_main.
+
+Theorem C09_name_table_fallback :
+  forall tbl pr f,
+  NoDup (all_names tbl) -> In pr tbl -> In f (p_fbs pr) ->
+  classify tbl f = Some (p_ka pr) /\ resolve tbl f = (p_main pr, Some f).
+Proof. exact classify_fallback. Qed.
+Print Assumptions C09_name_table_fallback.
+
+Theorem C09_name_table_nothing_else :
+  forall tbl nm, NoDup (map p_main tbl) -> ~ In nm (all_names tbl) -> classify tbl nm = None.
+Proof. exact classify_none. Qed.
+Print Assumptions C09_name_table_nothing_else.
+
+(* pinning the table: looking the flag up under the negotiated name itself (instead of resolving a
+   fallback name to its protocol first) classifies the fallback names of a keep-alive protocol as
+   "does not hold the connection" — a substream accepted over such a name would lose its permit *)
+Theorem C09_name_table_own_name_lookup_refuted :
+  exists tbl pr f,
+  NoDup (all_names tbl) /\ In pr tbl /\ In f (p_fbs pr) /\
+  classify tbl f = Some true /\ classify_by_own_name tbl f = Some false.
+Proof.
+  exists [mkP 2 [1] true; mkP 5 [] false], (mkP 2 [1] true), 1.
+  vm_compute. repeat split; try (left; reflexivity); repeat constructor; cbn; intuition discriminate.
+Qed.
+Print Assumptions C09_name_table_own_name_lookup_refuted.
 
 (* non-vacuity: T = 300; established at 0, an open at 200 (keep-alive protocol) moves the close
    from 300 to 500: polls at 400 (re-arm) and 600 (downgrade); the permit in flight keeps the
